@@ -71,6 +71,39 @@ let run (kind : string) (args : string list) : string =
        | M.Ok b -> "ok " ^ desc b
        | M.Err -> "err"
        | M.Panic -> "panic")
+  | "bseq", toks ->
+      (* a builder call sequence: S hex pf | N | B <backoff> | l n | j lo hi | w x | D ; result = outcomes of the Builds *)
+      let table = ref [] in
+      let field3 (bs : M.z list) : M.z list option =
+        let eq = z_of_zarith (Z.of_int 61) and colon = z_of_zarith (Z.of_int 58) in
+        let rec after = function [] -> None | c :: r -> if c = eq then Some r else after r in
+        match after bs with
+        | None -> None
+        | Some v ->
+            let rec split cur acc = function
+              | [] -> List.rev (List.rev cur :: acc)
+              | c :: r -> if c = colon then split [] (List.rev cur :: acc) r else split (c :: cur) acc r in
+            (match split [] [] v with _ :: _ :: f :: _ -> Some f | _ -> None) in
+      let rec ops = function
+        | [] -> []
+        | "S" :: h :: pf :: r ->
+            let bs = bytes_of_hex h in
+            (match field3 bs, pf with
+             | Some f, ("pferr" | "pfnone") -> table := (f, None) :: !table
+             | Some f, bits -> table := (f, Some (fl bits)) :: !table
+             | None, _ -> ());
+            M.SetSpec bs :: ops r
+        | "N" :: r -> M.SetBase None :: ops r
+        | "B" :: r -> let (b, r') = parse_b r in M.SetBase b :: ops r'
+        | "l" :: n :: r -> M.AddLayer (M.LLimit (zs n)) :: ops r
+        | "j" :: lo :: hi :: r -> M.AddLayer (M.LJitter (fl lo, fl hi)) :: ops r
+        | "w" :: x :: r -> M.AddLayer (M.with_jitter (fl x)) :: ops r
+        | "D" :: r -> M.DoBuild :: ops r
+        | t :: _ -> failwith ("bad builder op " ^ t) in
+      let os = ops toks in
+      let pfun f = (match List.assoc_opt f !table with Some v -> v | None -> None) in
+      let (_, outs) = M.brun pfun M.binit os in
+      String.concat " ; " (List.map (function M.Ok b -> "ok " ^ desc b | M.Err -> "err" | M.Panic -> "panic") outs)
   | _ -> failwith ("bad case kind " ^ kind)
 
 let () =
